@@ -211,6 +211,11 @@ EXPORT int _vsnwprintf_s_chk(wchar_t *restrict dest, rsize_t dmax,
         handle_werror(dest, dmax, errstr, -ret);
         return ret;
     }
+#ifdef SAFECLIB_STR_NULL_SLACK
+    else {
+        memset(&dest[ret], 0, (dmax - ret) * sizeof(wchar_t));
+    }
+#endif
 #endif
 
     return ret;
